@@ -21,7 +21,6 @@ from vlib import engine
 
 import dawgie.context
 import dawgie.db
-import dawgie.pl.state
 
 os.environ.pop('DAWGIE_DOCKERIZED_AE_GIT_REVISION', None)
 
@@ -47,15 +46,27 @@ class Checkout:
             self.git('commit', '-q', '-m', n)
             self.sha[n] = self.git('rev-parse', 'HEAD')
             self.name[self.sha[n]] = n
-        self.head = self.name[self.git('rev-parse', 'HEAD')]
+        self.git('checkout', '-q', '--detach', self.sha[names[0]])
+        self.head = self.read_head()
+        self.boot_rev = ''
 
     def git(self, *args):
         return subprocess.check_output(['git', '-C', self.root] + list(args), env=self.env, stderr=subprocess.STDOUT).decode().strip()
 
+    def read_head(self):
+        # spawning a process is very expensive here: HEAD of a detached checkout is the commit id in .git/HEAD
+        with open(os.path.join(self.root, '.git', 'HEAD'), 'rt', encoding='utf-8') as f:
+            return self.name[f.read().strip()]
+
     def move(self, n):
+        '''detached checkout of the commit of revision n: working tree and HEAD (what `git checkout --detach` leaves
+        behind, written directly -- no process is spawned)'''
         if self.head != n:
-            self.git('checkout', '-q', '--detach', self.sha[n])
-            self.head = self.name[self.git('rev-parse', 'HEAD')]
+            with open(os.path.join(self.root, 'ae', '__init__.py'), 'wt', encoding='utf-8') as f:
+                f.write(f'# software revision {n}\n')
+            with open(os.path.join(self.root, '.git', 'HEAD'), 'wt', encoding='utf-8') as f:
+                f.write(self.sha[n] + '\n')
+            self.head = self.read_head()
 
 
 CO = [None]
@@ -70,6 +81,8 @@ def checkout():
 def real_reload():
     '''pl/state.py FSM._reload on a bare object: db.close(); context.git_rev = context._rev(); time_machine.reload()'''
     fsm = types.SimpleNamespace(_FSM__doctest=False, time_machine=types.SimpleNamespace(reload=lambda: None))
+    import dawgie.pl.state  # pylint: disable=import-outside-toplevel
+
     orig = dawgie.db.close
     dawgie.db.close = lambda: None
     try:
@@ -103,7 +116,10 @@ class FarmWorld(World):
         self.co.move('rev0')
         self.ae_base_path = dawgie.context.ae_base_path
         dawgie.context.ae_base_path = os.path.join(self.co.root, 'ae')
-        dawgie.context.git_rev = dawgie.context._rev()
+        if not self.co.boot_rev:
+            # once per harness process (a process spawn each): every job starts like this one
+            self.co.boot_rev = dawgie.context._rev()
+        dawgie.context.git_rev = self.co.boot_rev
 
     def close(self):
         super().close()
